@@ -47,7 +47,7 @@ mod gaps {
     }
 
     pub fn gen_case(r: &mut Rng) -> Case {
-        let kind = r.below(7);
+        let kind = r.below(8);
         Case { kind, a: r.below(64), b: r.below(64), c: r.below(64), d: r.below(8),
                script: (0..r.range(1, 8)).map(|_| (r.below(6), r.range(1, 30))).collect() }
     }
@@ -65,7 +65,8 @@ mod gaps {
             3 => full(c),
             4 => overflow(c),
             5 => refused(c),
-            _ => small_paths(c),
+            6 => small_paths(c),
+            _ => str_parts(c),
         }
     }
 
@@ -408,6 +409,37 @@ mod gaps {
             }
             dir!(true); dir!(false);
         }
+        notes
+    }
+
+    // ------------------------------------------------------------------------------------------
+    // C16 names BumpBox<str>::split_off and BumpString::split_off among the operations that divide exactly: every range on
+    // character boundaries (prefix, suffix, interior with a shorter or a longer head, empty, full) of texts mixing 1-4 byte
+    // characters; the split-off part is the range, the rest is what std's drain leaves, both stay independent
+    fn str_parts(c: &Case) -> Vec<String> {
+        let mut notes = vec![];
+        let alphabet = ['a', 'b', 'c', 'd', '\u{e9}', '\u{4e16}', '\u{1F600}', 'z', 'y', '\u{df}'];
+        let n = 1 + (c.a % 12) as usize;
+        let text: String = (0..n).map(|i| alphabet[((c.b as usize) * 7 + i * 3 + (c.c as usize)) % alphabet.len()]).collect();
+        let bounds: Vec<usize> = text.char_indices().map(|(i, _)| i).chain(std::iter::once(text.len())).collect();
+        let ia = (c.c as usize) % bounds.len();
+        let ib = ia + (c.d as usize + c.a as usize) % (bounds.len() - ia);
+        let (a, b) = (bounds[ia], bounds[ib]);
+        let which = c.b % 3;
+        let head = format!("parts: str split_off which={which} text={text:?} range={a}..{b}");
+        let mut std_rest = text.clone();
+        let std_off: String = std_rest.drain(a..b).collect();
+        let bump: Bump = Bump::new();
+        let (off, rest): (String, String) = match which {
+            0 => { let mut bx = bump.alloc_str(&text); let o = bx.split_off(a..b); let r = (o.to_string(), bx.to_string()); r }
+            1 => { let mut s = bump_scope::BumpString::from_str_in(&text, &bump); let mut o = s.split_off(a..b);
+                   // the parts are independent: growing one does not touch the other
+                   let before = s.to_string(); o.push_str("++"); if s.as_str() != before { notes.push(format!("{head}: pushing onto the split-off part changed the remaining part")); }
+                   o.truncate(o.len() - 2); (o.to_string(), s.to_string()) }
+            _ => { let mut s = bump_scope::FixedBumpString::with_capacity_in(text.len() + 3, &bump); s.push_str(&text); let o = s.split_off(a..b); (o.to_string(), s.to_string()) }
+        };
+        if off != std_off { notes.push(format!("{head}: the split_off part is {off:?}, the range is {std_off:?}")); }
+        if rest != std_rest { notes.push(format!("{head}: split_off changed the remaining part to {rest:?} instead of {std_rest:?}")); }
         notes
     }
 
